@@ -22,7 +22,7 @@ def variants():
         out.append((os.path.basename(d), os.path.join(d, "patch.diff"), "silent", []))
     for d in sorted(glob.glob(os.path.join(VERIF, "seeded", "C*"))):
         m = json.load(open(os.path.join(d, "meta.json")))
-        out.append(("S" + os.path.basename(d), os.path.join(d, "patch.diff"), "fire", [m["property"]]))
+        out.append(("S" + os.path.basename(d), os.path.join(d, "patch.diff"), "fire-or-closed" if m.get("fails_closed") else "fire", [m["property"]]))
     for p in sorted(glob.glob(os.path.join(VERIF, "selftest", "C*", "*.patch"))):
         m = json.load(open(p[:-6] + ".json"))
         out.append(("H%s-%s" % (m["property"], os.path.basename(p)[:-6]), p, "fire", [m["property"]]))
@@ -96,7 +96,8 @@ def main():
             else:
                 print("ok silent   %s" % vid)
         else:
-            miss = [p for p in eprops if p in row and row[p][0] != 1]
+            # ("fire-or-closed": a change that replaces a whole mechanism -- the own check says it cannot decide (exit 2), which is accepted there)
+            miss = [p for p in eprops if p in row and row[p][0] != 1 and not (expect == "fire-or-closed" and row[p][0] == 2)]
             extra = [p for p, x in row.items() if x[0] != 0 and p not in eprops]
             if miss:
                 bad += 1
